@@ -64,6 +64,11 @@ Inductive tstep :=
 
 Definition dir_ok (g : list dir) (d : dir) : bool := negb (existsb (N.eqb d) g).
 
+Definition is_prefix {A} (p l : list A) : Prop := exists q, l = p ++ q.
+
+(* n fault-free process steps, no interference *)
+Definition steps (n : nat) (r : N) : list event := repeat (Step NoFault r) n.
+
 Section Model.
   Variable cfg : Type.
   Variable marshal : cfg -> option bytes.     (* proto.Marshal: None = error (missing required field) *)
@@ -194,6 +199,10 @@ Section Model.
   Definition removed (d : dir) (evs : list event) : bool := existsb (is_rm d) evs.
 
   Definition is_idle (p : pcst) : bool := match p with Idle => true | _ => false end.
+
+  (* file content after a list of successful whole-configuration stores *)
+  Definition last_marshal (cs : list cfg) (t0 : option bytes) : option bytes :=
+    fold_left (fun _ c => marshal c) cs t0.
 
   (* the step list of one successful store, as a trace *)
   Definition save_steps (d : dir) (r : N) (buf : bytes) : list tstep :=
